@@ -38,6 +38,13 @@ type RTPSink struct {
 // InFlight returns the number of Write calls that have started but not yet returned.
 func (s *RTPSink) InFlight() int { return int(s.inFlight.Load()) }
 
+// SetFailAt replaces the table of failing call indices (nil: none fail).
+func (s *RTPSink) SetFailAt(m map[int]error) {
+	s.mu.Lock()
+	s.FailAt = m
+	s.mu.Unlock()
+}
+
 // Tampered lists the writes whose header or payload changed while the sink was still inside Write.
 func (s *RTPSink) Tampered() []string {
 	s.mu.Lock()
